@@ -80,6 +80,7 @@ structure Ctx where
   drops : Bool
   kinds : List Char
   prof : IdxIR.Prof := .debug
+  nestedDrops : List Nat := []   -- leaf indices naming the destructors of nested structs that implement `Drop`
 
 /-- forget the payload kinds: the shape as the index layer sees it -/
 def toIdxShape : Shape → IdxIR.Shape
@@ -104,7 +105,9 @@ def Ctx.maskCols (cx : Ctx) (cs : List (List Nat)) : List (List Nat) :=
 def Ctx.evStrings (cx : Ctx) (ev : Ev) : List String :=
   -- plain-data fields (`p`) have no destructor and are not tracked: they produce no events
   let d := (ev.drops.filter (fun i => cx.kindOf i != 'p')).map (fun i => if cx.kindOf i = 'z' then "dz" else s!"d{i}")
-  let t := ev.dropT.map (fun i => s!"T{i}")
+  -- a struct destructor run is named by the element's first leaf id; a nested struct that implements `Drop` (one per entry
+  -- of `nestedDrops`) is destroyed with the element it is part of: one unnamed event `N` per run
+  let t := (ev.dropT.map (fun i => s!"T{i}" :: cx.nestedDrops.map (fun _ => "N"))).flatten
   let c := (ev.clones.filter (fun i => cx.kindOf i != 'p')).map (fun i => if cx.kindOf i = 'z' then "cz" else s!"c{i}")
   (d ++ t ++ c).mergeSort (fun a b => decide (a ≤ b))
 
@@ -1091,7 +1094,11 @@ def parseShapeLine (prof : IdxIR.Prof) (line : String) : Option Ctx :=
   match (line.splitOn " ").filter (· ≠ "") with
   | "shape" :: _name :: dr :: toks =>
     match parseTree toks with
-    | some (sh, []) => some { shape := sh, drops := dr == "drops=1", kinds := sh.kinds, prof := prof }
+    | some (sh, []) =>
+      let nd : List Nat := match dr.splitOn ":" with
+        | [_, ls] => (ls.splitOn ",").filterMap String.toNat?
+        | _ => []
+      some { shape := sh, drops := dr.startsWith "drops=1", kinds := sh.kinds, prof := prof, nestedDrops := nd }
     | _ => none
   | _ => none
 
